@@ -324,6 +324,12 @@ fn interpolate_token_slice(
         while v.is_string() {
             v = v.interpolate(params, &mut st)?;
         }
+        if v.is_mapping() || v.is_sequence() {
+            // Containers may still hold references or layered values; resolve them before
+            // taking the text form.
+            v = v.interpolate(params, &mut st)?;
+            v.flatten(&mut st)?;
+        }
         res.push_str(&v.raw_string()?);
     }
     Ok(res)
